@@ -163,6 +163,15 @@ def roots_and_depth(ctx, rule, f, ext, seq_calls, ext_calls, kernel_names):
                         parts = [(v, True) for v in test.values] if isinstance(test, ast.BoolOp) and isinstance(test.op, ast.Or) else [(test, True)]
                     if parts and all(_unreachability_test(fi, e, p) for e, p in parts) and len(facts) <= len(parts) + 0:
                         harmless.append(st)
+            # the same in nested form: the search sits under `if not <unreachable>`: every guard of the call (inside the
+            # loop) is the negation of an unreachability test; an iteration that gets past that `if` without searching is harmless
+            gfacts = C.facts_at(c, stop=loop)
+            if gfacts and all((not pol) and _unreachability_test(fi, e, True) for e, pol in gfacts):
+                p_ = C.parent(fcfg.node_of(c))
+                while p_ is not None and p_ is not loop:
+                    if isinstance(p_, ast.If):
+                        harmless.append(p_)
+                    p_ = C.parent(p_)
             skip = fcfg.reachable(loop, loop, avoid=[c] + harmless, within=loop)
             ctx.check(not skip, rule, "no root is skipped: every iteration of the root loop performs the path search", fi.where(c),
                       "an iteration of `for %s in %s` can return to the loop head without searching from that root: cycles that are "
@@ -415,17 +424,15 @@ def run(ctx):
         # nothing appended after the sort
         late = [a for a, _ in pm.find("%s.append(M__)" % lst, f.node)
                 if cfg.reachable(dom[0], a, avoid=[C.enclosing_loop(n)]) and cfg.dominates(dom[0], a)]
-        tests = [t for t, _ in pm.find("%s in %s" % (U(b["M_key"]), U(b["M_set"])), f.node)]
-        tests = [t for t in tests if cfg.dominates(dom[0], t)]
+        # the membership test (either polarity, branch or guard clause) follows the sort, and the insertion happens exactly
+        # where `key in set` is false
+        memb = C.CT("%s in %s" % (U(b["M_key"]), U(b["M_set"])))
+        tests = [t for t in ast.walk(f.node) if isinstance(t, ast.If) and any(
+            tt == memb for tt, _ in C.norm_facts_of_test(t.test)) and cfg.dominates(dom[0], t)]
         good = not late and bool(tests)
-        # the membership test must lead to skipping the path
-        skip_ok = False
-        for t in tests:
-            st = cfg.node_of(t)
-            if isinstance(st, ast.If) and any(isinstance(x, ast.Continue) for x in st.body):
-                skip_ok = cfg.dominates(st, n)
+        skip_ok = (memb, False) in C.norm_facts(n)
         if good and skip_ok:
-            ctx.node_ok("R4", f, n, "sort -> membership test (continue) -> add, key %s" % U(key))
+            ctx.node_ok("R4", f, n, "sort -> membership test -> add only when new, key %s" % U(key))
         else:
             ctx.node_bad("R4", f, n, "de-duplication is not `sort; if key in set: continue; set.add(key)` "
                          "(late appends: %d, membership tests after the sort: %d, skips: %s)" % (
